@@ -584,7 +584,7 @@ func replayOne(u *universe, index int, beh []map[string]any, expect string, bf b
 done:
 	ctl.finish()
 	run.Stale = r.tr.stale
-	run.StalePrios = r.tr.stalePrio
+	run.StalePrios = r.tr.stalePrio + r.tr.stalePrioRaced
 	if run.Mismatch != nil && run.Stale > 0 {
 		run.Mismatch.Stale = true
 	}
